@@ -98,6 +98,11 @@ def gen_pw_set(rng, limit, r56, force=None, maxlen=None):
         owner = straddle(rng, inside=True)
     elif force == 'short':
         user, owner = rascii_text(rng, rng.randint(3, 8)), rascii_text(rng, rng.randint(3, 8))
+    elif force == 'noowner':
+        # no owner password and a user password that is not empty (Algorithm 3 a: "use the user password instead")
+        while not user.strip():
+            user = pw_text(rng, r56, 0.0, maxlen, asc)
+        owner = ''
     cands = [pw_text(rng, r56, 0.3, maxlen, asc) for _ in range(2)]
     for base in ([user, owner] if force in ('user-straddle', 'owner-straddle') or rng.random() < 0.5 else [user]):
         if not base:
@@ -113,7 +118,7 @@ def gen_pw_set(rng, limit, r56, force=None, maxlen=None):
             j = char_index_at_byte(base, limit + 3)       # a character wholly beyond the cut
             if j is not None and j > i + 1:
                 cands.append(base[:j] + other_char(rng, base[j]) + base[j + 1:])
-    if rng.random() < 0.5:
+    if rng.random() < 0.5 or force == 'noowner':
         cands.append('')                                  # the empty password (must not open unless it is one of the two)
     return {'user': user, 'owner': owner, 'cands': cands, 'limit': limit, 'r56': r56}
 
